@@ -71,6 +71,13 @@ class Gen:
             kids = [self.tree(depth - 1) for _ in range(r.randint(2, 3))]
             return ['And' if k == 'and' else 'Or', kids, default, style]
         if k == 'not':
+            if r.random() < 0.3:
+                # ~~x is Not(Not(x)): it yields the TARGET where x passes (whatever x itself yields) and rejects with its own
+                # MatchError where x fails (whatever x fails with)
+                first = ['MExpr', ['M'], r.choice(['>', '<', '!', 'g']), ['Lit', r.choice([0, 3, 5])]]
+                last = r.choice([['Val', 'yielded'], ['T', 'T', [['[', ['Str', 'n']]]], ['Val', 7], self.atom()])
+                inner = [r.choice(['And', 'Or']), [first, last], None, 'op'] if r.random() < 0.8 else ['Or', [first], ['Lit', 'dflt'], 'ctor']
+                return ['Not', ['Not', inner, 'op'], 'op']
             return ['Not', self.tree(depth - 1), style]
         cases = []
         for _ in range(r.randint(1, 3)):
@@ -107,6 +114,9 @@ def strip_style(ir):
 def corpus():
     return [
         {'target': 1, 'spec': ['Not', ['Match', ['Type', 'int'], None], 'ctor']},
+        {'target': 8, 'spec': ['Not', ['Not', ['And', [['MExpr', ['M'], '>', ['Lit', 7]], ['Val', 7]], None, 'op'], 'op'], 'op']},
+        {'target': 1, 'spec': ['Not', ['Not', ['Or', [['MExpr', ['M'], '>', ['Lit', 5]], ['Val', 'low']], None, 'op'], 'op'], 'op']},
+        {'target': {'k': 'dict', 'od': False, 'id': 3, 'items': []}, 'spec': ['Not', ['Not', ['And', [['MExpr', ['M'], '!', ['Lit', 0]], ['T', 'T', [['[', ['Str', 'n']]]]], None, 'op'], 'op'], 'op']},
         {'target': 1, 'spec': ['And', [['And', [['MExpr', ['M'], '>', ['Lit', 5]]], ['Lit', 7], 'ctor'], ['Match', ['Type', 'int'], None]], None, 'op']},
         {'target': 6, 'spec': ['Or', [['MExpr', ['M'], '>', ['Lit', 5]], ['Tuple', [['Fn', ['probe', 1]], ['M']]]], None, 'op']},
         {'target': 0, 'spec': ['Or', [['M'], ['Val', None]], None, 'op']},
